@@ -80,3 +80,55 @@ func instances(hyps []*T, sks []*T) []*T {
 	}
 	return out
 }
+
+// defInstances unfolds the `specdef` definitions once at every ground application occurring in
+// ts (and once more in the results: the unfolding of f(i+1) mentions f(i)).
+func (p *Program) defInstances(x *Exec, ts []*T) []*T {
+	axs := p.specDefAxioms(x)
+	if len(axs) == 0 {
+		return nil
+	}
+	byName := map[string]*T{}
+	for _, a := range axs {
+		byName[a.Pat[0][0].Name] = a
+	}
+	seenApp := map[*T]bool{}
+	var out []*T
+	var apps []*T
+	seen := map[*T]bool{}
+	var walk func(t *T)
+	walk = func(t *T) {
+		if seen[t] {
+			return
+		}
+		seen[t] = true
+		if t.Op == term.OApp && byName[t.Name] != nil && !t.HasBound() && !seenApp[t] {
+			seenApp[t] = true
+			apps = append(apps, t)
+		}
+		for _, a := range t.Args {
+			walk(a)
+		}
+		if t.Op == term.OArrMap {
+			t.M.Each(func(_ int64, v *T) bool { walk(v); return true })
+		}
+	}
+	for _, t := range ts {
+		walk(t)
+	}
+	for round := 0; round < 2 && len(apps) > 0 && len(out) < 200; round++ {
+		cur := apps
+		apps = nil
+		for _, app := range cur {
+			ax := byName[app.Name]
+			m := map[*T]*T{}
+			for i, b := range ax.Bnd {
+				m[b] = app.Args[i]
+			}
+			inst := term.Subst(ax.Args[0], m)
+			out = append(out, inst)
+			walk(inst)
+		}
+	}
+	return out
+}
